@@ -110,6 +110,12 @@ pub enum Mutation {
     },
     /// an arbitrary string instead of the token
     Replace(String),
+    /// the last character of part `part % 3` replaced by one that differs only in the bits base64url leaves unused
+    /// there (HS256 and HS512 signatures have 2 resp. 4 of them): decodes to the same bytes under a lenient reading
+    TrailingBits {
+        part: u8,
+        bits: u8,
+    },
 }
 
 #[derive(Debug, Clone, Serialize, Deserialize, PartialEq)]
@@ -171,7 +177,7 @@ fn alg_variant(spelling: u8, configured: &str) -> Option<Value> {
 // ---------------------------------------------------------------- own base64url
 
 pub mod b64url {
-    const ALPHABET: &[u8; 64] = b"ABCDEFGHIJKLMNOPQRSTUVWXYZabcdefghijklmnopqrstuvwxyz0123456789-_";
+    pub const ALPHABET: &[u8; 64] = b"ABCDEFGHIJKLMNOPQRSTUVWXYZabcdefghijklmnopqrstuvwxyz0123456789-_";
 
     /// RFC 4648 §5 without padding
     pub fn encode(data: &[u8]) -> String {
@@ -399,8 +405,13 @@ pub fn verify_token(token: &str, secret: &[u8], alg: usize, now: u64) -> Verdict
     if let Some(b) = bad.first() {
         return Verdict::Reject(b);
     }
-    // don't-care regions
-    if !(b64url::is_canonical(h) && b64url::is_canonical(p) && b64url::is_canonical(s)) {
+    // "any byte of its three parts altered … is refused": a signature part that decodes to the right MAC only under
+    // a lenient reading (`=` appended, unused trailing bits set) is an altered byte of the token that would verify
+    if !b64url::is_canonical(s) {
+        return Verdict::Reject("signature-not-canonical-base64url");
+    }
+    // don't-care regions (header/payload parts written non-canonically *and* signed as written)
+    if !(b64url::is_canonical(h) && b64url::is_canonical(p)) {
         return Verdict::Either("non-canonical-base64url", pv);
     }
     if hv.get("typ").is_some_and(|t| t != "JWT") {
@@ -547,6 +558,27 @@ fn mutate(case: &Case, base: &str) -> String {
             parts.join(".")
         }
         Mutation::Replace(t) => t.clone(),
+        Mutation::TrailingBits { part, bits } => {
+            let mut parts = [h, p, s];
+            let t = &mut parts[*part as usize % 3];
+            let mask: usize = match t.len() % 4 {
+                2 => 0xf,
+                3 => 0x3,
+                _ => 0,
+            };
+            if let Some(last) = t.pop() {
+                let idx = b64url::ALPHABET.iter().position(|a| *a as char == last);
+                match idx {
+                    Some(i) if mask != 0 => {
+                        // a different value of the unused bits (never the same character)
+                        let low = (i & mask) ^ (1 + (*bits as usize % mask));
+                        t.push(b64url::ALPHABET[(i & !mask) | (low & mask)] as char)
+                    }
+                    _ => t.push(last),
+                }
+            }
+            parts.join(".")
+        }
     }
 }
 
@@ -786,6 +818,7 @@ fn mutation_strategy() -> impl Strategy<Value = Mutation> {
         2 => (prop_oneof![-90i8..0, 1i8..6], any::<u8>(), prop::bool::weighted(0.3)).prop_map(|(delta, fill, front)| Mutation::SigChars { delta, fill, front }),
         2 => (prop_oneof![-64i8..0, 1i8..4], any::<u8>(), prop::bool::weighted(0.4)).prop_map(|(delta, fill, front)| Mutation::SigBytes { delta, fill, front }),
         1 => (0u8..3, 0u8..2).prop_map(|(part, n)| Mutation::Pad { part, n }),
+        1 => (prop_oneof![1 => 0u8..2, 3 => Just(2u8)], any::<u8>()).prop_map(|(part, bits)| Mutation::TrailingBits { part, bits }),
         1 => garbage().prop_map(Mutation::Replace),
     ]
 }
@@ -813,6 +846,7 @@ fn mutation_label(m: &Mutation) -> &'static str {
         Mutation::SigChars { .. } | Mutation::SigBytes { .. } => "mut:signature-length",
         Mutation::Pad { .. } => "mut:padding",
         Mutation::Replace(_) => "mut:arbitrary-string",
+        Mutation::TrailingBits { .. } => "mut:unused-trailing-bits",
     }
 }
 fn carrier_label(c: &Carrier) -> &'static str {
@@ -907,9 +941,9 @@ impl C12 {
 impl Property for C12 {
     type Case = Case;
     const ID: &'static str = "C12";
-    const RULE: &'static str = "generated: secret (empty, ASCII, Unicode, control characters, lengths around the SHA block sizes, up to 3000) × HS256/384/512 (and JWT::default) × payload object (0–4 arbitrary members incl. nested objects carrying claim names; exp/nbf/iat absent or before/at/after the frozen now as u64, negative, fractional and float-typed numbers) × base token (JWT::issue of the configuration, or the reference issuer with header member order, extra members, typ/cty variants, whitespace, payload member order) × one mutation (single-character substitution at a sampled position of a part, other key, other algorithm in header and/or signature, alg none/unknown/missing with empty, absent, re-computed or original signature, 0–5 parts, empty parts, leading/trailing dot, signature shorter/longer by characters or bytes, padding, arbitrary string) × carrier (Bearer, missing header, no prefix, no space, other scheme words and letter cases, arbitrary value) × 7 methods. A router with the fang on the root and an echo handler is built per case; when the base token is reference-valid it is first sent unmodified (control), then the mutated request. Oracle: reference verifier of the statement (own base64url, RustCrypto HMAC checked against RFC 4231 vectors) on the field value ⇒ handler ran once with exactly the signed payload and 200 | handler did not run and status ≥ 400; tokens of JWT::issue must satisfy the reference verifier (up to their own time claims) and decode to the payload; OPTIONS: handler did not run. Non-trivial = reference-valid base token with exactly one deviation (mutation or carrier) that the reference refuses, or a correctly signed token with exactly one inadmissible claim; distinct by case.";
+    const RULE: &'static str = "generated: secret (empty, ASCII, Unicode, control characters, lengths around the SHA block sizes, up to 3000) × HS256/384/512 (and JWT::default) × payload object (0–4 arbitrary members incl. nested objects carrying claim names; exp/nbf/iat absent or before/at/after the frozen now as u64, negative, fractional and float-typed numbers) × base token (JWT::issue of the configuration, or the reference issuer with header member order, extra members, typ/cty variants, whitespace, payload member order) × one mutation (single-character substitution at a sampled position of a part, other key, other algorithm in header and/or signature, alg none/unknown/missing with empty, absent, re-computed or original signature, 0–5 parts, empty parts, leading/trailing dot, signature shorter/longer by characters or bytes, padding, unused trailing bits of a part's last character, arbitrary string) × carrier (Bearer, missing header, no prefix, no space, other scheme words and letter cases, arbitrary value) × 7 methods. A router with the fang on the root and an echo handler is built per case; when the base token is reference-valid it is first sent unmodified (control), then the mutated request. Oracle: reference verifier of the statement (own base64url, RustCrypto HMAC checked against RFC 4231 vectors) on the field value ⇒ handler ran once with exactly the signed payload and 200 | handler did not run and status ≥ 400; tokens of JWT::issue must satisfy the reference verifier (up to their own time claims) and decode to the payload; OPTIONS: handler did not run. Non-trivial = reference-valid base token with exactly one deviation (mutation or carrier) that the reference refuses, or a correctly signed token with exactly one inadmissible claim; distinct by case.";
     const ASSUMPTIONS: &'static [&'static str] = &[
-        "don't-care (either outcome, payload still checked): typ other than \"JWT\", any cty, letter case of the Bearer scheme, `=` padding or non-zero trailing bits in a part whose signature is otherwise valid, time claims that are not numbers, optional whitespace around the field value",
+        "don't-care (either outcome, payload still checked): typ other than \"JWT\", any cty, letter case of the Bearer scheme, `=` padding or non-zero trailing bits in a header or payload part that was signed as written (in the signature part they are refused: an altered byte), time claims that are not numbers, optional whitespace around the field value",
         "a request longer than the 1 KiB request buffer may be refused (C02's assumption); it must still never be accepted wrongly",
         "HMAC-SHA2 (RustCrypto) and serde_json's parser are trusted base; floats in payloads have at most 15 significant digits so that JSON text round-trips exactly",
         "OPTIONS is answered by the fang itself (documented bypass): only `the handler did not run` is demanded",
